@@ -7,8 +7,17 @@ From V Require Import Common.NumFacts C11.Model C11.Proofs.
 
 (* the machine that is run against the implementation: the heap plus the state kept outside the indexers
    (Stream._flow_cache, the factor caches of the units objects, the per-stream property memo) *)
-Definition finalU Vf MWf pkgs utab (l : list init) (ops : list op) : ustate :=
-  fst (runU Vf MWf pkgs utab (buildU l) ops).
+Definition finalK Vf MWf pkgs utab (l : list init) (ops : list op) : kstate :=
+  fst (runK Vf MWf pkgs utab (buildK l) ops).
+Definition finalU Vf MWf pkgs utab (l : list init) (ops : list op) : ustate := ku (finalK Vf MWf pkgs utab l ops).
+
+(* the three invariants of the inner layers hold after every history of the outer machine *)
+Lemma inv_final Vf MWf pkgs utab l ops : Inv Vf pkgs (uh (finalU Vf MWf pkgs utab l ops)).
+Proof. exact (lift_runK Vf MWf pkgs utab (fun U => Inv Vf pkgs (uh U)) (inv_stepU Vf MWf pkgs utab) ops (buildK l) (inv_build Vf pkgs l)). Qed.
+Lemma UC_final Vf MWf pkgs utab l ops : UC utab (finalU Vf MWf pkgs utab l ops).
+Proof. exact (lift_runK Vf MWf pkgs utab (UC utab) (UC_stepU Vf MWf pkgs utab) ops (buildK l) (UC_buildU utab l)). Qed.
+Lemma PM_final Vf MWf pkgs utab l ops : PM Vf pkgs (finalU Vf MWf pkgs utab l ops).
+Proof. exact (lift_runK Vf MWf pkgs utab (PM Vf pkgs) (PM_stepU Vf MWf pkgs utab) ops (buildK l) (PM_buildU Vf pkgs l)). Qed.
 Definition final Vf MWf pkgs utab (l : list init) (ops : list op) : heap := uh (finalU Vf MWf pkgs utab l ops).
 
 (* alias_inv: after EVERY history, every view cached for every stream wraps that stream's current molar
@@ -19,16 +28,16 @@ Theorem C11_alias_inv : forall Vf MWf pkgs utab l ops,
   let h := final Vf MWf pkgs utab l ops in
   forall i s, nth_error (streams h) i = Some s ->
     (forall v, c_mass (getcache h (cch s)) = Some v -> mv_rows v = srcs h s /\ mv_pkg v = pkg s) /\
-    (forall v, vol_find (tc s) (c_vols (getcache h (cch s))) = Some v ->
-       map (fun r => (vr_dct r, vr_src r)) (vv_rows v) = srcs h s /\ vv_tp v = tc s /\ vv_pkg v = pkg s) /\
+    (forall t v, vol_find t (c_vols (getcache h (cch s))) = Some v ->       (* under EVERY key, not only the current TP object *)
+       map (fun r => (vr_dct r, vr_src r)) (vv_rows v) = srcs h s /\ vv_tp v = t /\ vv_pkg v = pkg s) /\
     (forall j s2, nth_error (streams h) j = Some s2 -> cch s = cch s2 ->
        srcs h s = srcs h s2 /\ pkg s = pkg s2).
 Proof.
   intros Vf MWf pkgs utab l ops h i s Hs.
-  pose proof (inv_runU Vf MWf pkgs utab ops (buildU l) (inv_build Vf pkgs l)) as I.
+  pose proof (inv_final Vf MWf pkgs utab l ops) as I.
   destruct (I i s Hs) as (_ & (VM & VV) & SH). split; [|split].
   - intros v Hv. exact (VM v Hv).
-  - intros v Hv. destruct (VV v Hv) as (A & B & C & _). auto.
+  - intros t v Hv. destruct (VV t v Hv) as (A & B & C & _). auto.
   - intros j s2 H2 EQ. pose proof (SH j s2 H2 EQ) as O. split.
     + apply same_owner_srcs; exact O.
     + destruct O as (_ & _ & K & _); exact K.
@@ -38,7 +47,7 @@ Print Assumptions C11_alias_inv.
 (* the full invariant (including: every memo entry is the oracle's value for its key) holds after every history *)
 Theorem C11_invariant_all_histories : forall Vf MWf pkgs utab l ops,
   Inv Vf pkgs (final Vf MWf pkgs utab l ops).
-Proof. intros Vf MWf pkgs utab l ops. exact (inv_runU Vf MWf pkgs utab ops (buildU l) (inv_build Vf pkgs l)). Qed.
+Proof. intros Vf MWf pkgs utab l ops. exact (inv_final Vf MWf pkgs utab l ops). Qed.
 Print Assumptions C11_invariant_all_histories.
 
 (* vol_get: after any history, reading the volumetric view gives, for every row (molar dict d, phase source src)
@@ -54,7 +63,7 @@ Theorem C11_vol_get : forall Vf MWf pkgs utab l ops,
     == nthq (getrow h d) j * (1000 * Vf (gid pkgs (pkg s) j) (base (src_phase h src)) T' P').
 Proof.
   intros Vf MWf pkgs utab l ops h i s Hs.
-  exact (vol_get_lemma Vf pkgs h i s (inv_runU Vf MWf pkgs utab ops (buildU l) (inv_build Vf pkgs l)) Hs).
+  exact (vol_get_lemma Vf pkgs h i s (inv_final Vf MWf pkgs utab l ops) Hs).
 Qed.
 Print Assumptions C11_vol_get.
 
@@ -77,7 +86,7 @@ Theorem C11_mass_get : forall Vf MWf pkgs utab l ops,
     nthq (nth n (snd (read_mass MWf pkgs h s)) []) j == nthq (getrow h d) j * nthq (mwvec MWf pkgs (pkg s)) j.
 Proof.
   intros Vf MWf pkgs utab l ops h i s Hs.
-  exact (mass_get_lemma Vf MWf pkgs h i s (inv_runU Vf MWf pkgs utab ops (buildU l) (inv_build Vf pkgs l)) Hs).
+  exact (mass_get_lemma Vf MWf pkgs h i s (inv_final Vf MWf pkgs utab l ops) Hs).
 Qed.
 Print Assumptions C11_mass_get.
 
@@ -94,7 +103,7 @@ Theorem C11_mass_set : forall Vf MWf pkgs utab l ops,
 Proof.
   intros Vf MWf pkgs utab l ops h i s r k v d src Hs Hr D K.
   exact (mass_set_lemma Vf MWf pkgs h i s r k v d src
-           (inv_runU Vf MWf pkgs utab ops (buildU l) (inv_build Vf pkgs l)) Hs Hr D K).
+           (inv_final Vf MWf pkgs utab l ops) Hs Hr D K).
 Qed.
 Print Assumptions C11_mass_set.
 
@@ -125,7 +134,7 @@ Theorem C11_total_vol_memo_fresh : forall Vf MWf pkgs utab l ops,
     snd (F_volU Vf pkgs U i s) == F_vol Vf pkgs (uh U) s.
 Proof.
   intros Vf MWf pkgs utab l ops E U i s Hs.
-  exact (F_volU_fresh Vf pkgs E U i s (PM_runU Vf MWf pkgs utab ops (buildU l) (PM_buildU Vf pkgs l)) Hs).
+  exact (F_volU_fresh Vf pkgs E U i s (PM_final Vf MWf pkgs utab l ops) Hs).
 Qed.
 Print Assumptions C11_total_vol_memo_fresh.
 
@@ -170,7 +179,7 @@ Theorem C11_unit_caches_coherent : forall Vf MWf pkgs utab l ops,
   (forall u, snd (flow_lookup utab U u) = match unit_of utab u with Some x => Ok x | None => Err EDim end).
 Proof.
   intros Vf MWf pkgs utab l ops U.
-  pose proof (UC_runU Vf MWf pkgs utab ops (buildU l) (UC_buildU utab l)) as C. fold (finalU Vf MWf pkgs utab l ops) in C. fold U in C.
+  pose proof (UC_final Vf MWf pkgs utab l ops) as C. fold U in C.
   split.
   - intros w u. exact (proj1 (cfactor_ok utab U w u C)).
   - intros u. exact (proj1 (flow_lookup_ok utab U u C)).
@@ -189,7 +198,7 @@ Theorem C11_view_units_wrong_dimension : forall Vf MWf pkgs utab l ops,
   rows (uh (fst (stepU Vf MWf pkgs utab U (OSetData i w u r k v)))) = rows (uh U).
 Proof.
   intros Vf MWf pkgs utab l ops U i s w u r k v Hs WD.
-  pose proof (UC_runU Vf MWf pkgs utab ops (buildU l) (UC_buildU utab l)) as C. fold (finalU Vf MWf pkgs utab l ops) in C. fold U in C.
+  pose proof (UC_final Vf MWf pkgs utab l ops) as C. fold U in C.
   assert (CV : conv utab w u = Err EDim).
   { unfold conv. destruct (unit_of utab u) as [[w' f]|] eqn:E; [|reflexivity].
     destruct (view_eqb w w') eqn:Q; [|reflexivity]. exfalso. apply (WD f).
@@ -226,6 +235,27 @@ Proof.
 Qed.
 Print Assumptions C11_view_copy_vol.
 
+(* name-keyed access on a multi-phase stream: after EVERY history the molar MaterialIndexer consults the name -> position
+   dict of its CURRENT phases and CURRENT package, so a (phase, chemical) key lands on that phase and that chemical *)
+Theorem C11_index_dict_current : forall Vf MWf pkgs utab l ops,
+  let K := finalK Vf MWf pkgs utab l ops in
+  forall i s, nth_error (streams (uh (ku K))) i = Some s ->
+    ic_get K i = (if multi s then Some (phs s, pkg s) else None) /\
+    (multi s = true -> forall r k,
+       resolve pkgs K i s VMol r k =
+       match pindex (phs s) (nth r (phs s) Pl), index_of (cas (gid pkgs (pkg s) k)) (map cas (chems pkgs (pkg s))) with
+       | Some r', Some k' => Ok (r', k')
+       | _, _ => Err EKey
+       end).
+Proof.
+  intros Vf MWf pkgs utab l ops K i s Hs.
+  pose proof (ICI_runK Vf MWf pkgs utab ops (buildK l) (ICI_buildK l)) as (_ & IC).
+  fold (finalK Vf MWf pkgs utab l ops) in IC. fold K in IC.
+  pose proof (IC i s Hs) as E. split; [exact E|].
+  intros M r k. unfold resolve. rewrite M, E. unfold ic_of. rewrite M. reflexivity.
+Qed.
+Print Assumptions C11_index_dict_current.
+
 (* set then get in the same unit is the identity, for every view (molar, mass, volumetric), after any history:
    set_flow(v, u, key) succeeds and get_flow(u, key) then returns v *)
 Theorem C11_units_set_then_get : forall Vf MWf pkgs utab l ops,
@@ -239,7 +269,7 @@ Theorem C11_units_set_then_get : forall Vf MWf pkgs utab l ops,
                = (h2, XMat [[x]]) /\ x == v.
 Proof.
   intros Vf MWf pkgs utab l ops MW VN h i s u w f r k v d src Hs U NZ Hr D K.
-  pose proof (inv_runU Vf MWf pkgs utab ops (buildU l) (inv_build Vf pkgs l)) as I. fold (finalU Vf MWf pkgs utab l ops) in I. fold (final Vf MWf pkgs utab l ops) in I. fold h in I.
+  pose proof (inv_final Vf MWf pkgs utab l ops) as I. fold (final Vf MWf pkgs utab l ops) in I. fold h in I.
   destruct (set_get_item Vf MWf pkgs MW VN h i s w r k (v / f) d src I Hs Hr D K) as (S1 & h2 & x & G & X).
   assert (E1 : step Vf MWf pkgs utab h (OSetFlow i u r k v) = set_item Vf MWf pkgs h s w r k (v / f)).
   { unfold step. rewrite Hs, U. reflexivity. }
@@ -284,7 +314,7 @@ Definition exOps : list op :=
 Example C11_nonvacuous :
   let h := final exV exMW pkgstub exU exL exOps in
   existsb (fun x => match x with XDomain | XErr EIndex => true | _ => false end)
-          (snd (runU exV exMW pkgstub exU (buildU exL) exOps)) = false /\
+          (snd (runK exV exMW pkgstub exU (buildK exL) exOps)) = false /\
   exists s0 s1 m0 m1 v0 v1,
     nth_error (streams h) 0 = Some s0 /\ nth_error (streams h) 1 = Some s1 /\
     c_mass (getcache h (cch s0)) = Some m0 /\ c_mass (getcache h (cch s1)) = Some m1 /\
